@@ -14,6 +14,7 @@ type IndexSchema struct {
 	Range        string `json:"range,omitempty"`
 	Global       bool   `json:"global"`
 	NoThroughput bool   `json:"noThroughput,omitempty"` // GSI without ProvisionedThroughput
+	ViaHelper    bool   `json:"viaHelper,omitempty"`    // AddIndex: use the client's AddIndex helper (S attributes, no throughput)
 }
 
 // Schema describes a table to create.
